@@ -11,13 +11,19 @@
 #  M7  get_hip_confidence_lb: `if (result < check) result = check` removed                          (transcript; oracle cpc_lb_below_coupons)
 #  M8  get_icon_confidence_lb reading ICON_LOW_SIDE_DATA instead of ICON_HIGH_SIDE_DATA            (transcript on cpc union results)
 #  M10 tuple get_upper_bound(sd, subset): `std::min(num_subset_entries, get_num_retained())` removed (oracle sk_exact / transcript)
+# Seeded changes (lib/seedrun.py): C06-1 exact-tail upper bound reading delta_of_num_std_devs[sd-1] -> CAUGHT (bit-exact exact-tail model given
+#  pow(theta,n) from the environment + oracle bb_exact_tail_ub: binomial tail at the bound does not bracket delta, exact rationals);
+#  C06-2 getCompositeEstimate finalY = yStride * xArrLen -> CAUGHT (bit-exact composite model on the translated CompositeInterpolationXTable
+#  + oracle hll_composite_jump_at_table_end); C06-3 get_icon_confidence_ub reading HIP_LOW_SIDE_DATA -> CAUGHT.
 # NOT observable (equivalent mutant, reported): M3 "ICON clamp removed" (`if (result >= c) return result; else return c` -> `return result`):
 #  an exhaustive scan of lg_k 4..26 x every coupon count of the polynomial branch (up to 3*10^6) shows the clamp never fires, so no
 #  output changes; the clamp itself is covered by theorem C06_clamps_never_below_count.
 # Harmless rewrites confirmed tolerated (one run with all four, exit 0): H1 the min/max clamp written as explicit comparisons;
 #  H2 table entries written with more / fewer decimal digits that round to the same double; H3 commuted factors and summands in
 #  cont_classic_lb; H4 HllArray::getLowerBound with numNonZeros computed as an integer first, statements reordered, fmax arguments swapped.
-import struct, math
+import struct, math, os, sys
+from fractions import Fraction
+sys.path.insert(0, os.path.join(os.path.dirname(os.path.abspath(__file__)), '..', 'translators'))
 PROP = "C06"
 READY = True
 COQ_PROPS = ['Properties_C06']
@@ -31,15 +37,17 @@ RULE = ('ENUMERATION over the implementation (not proof): the real functions are
         'compact forms, unions, intersections, A-not-B fed distinct keys across the exact/estimation boundary with sampling '
         'probabilities 1, 0.5, 0.1, 0.001; hll get_rel_err on every (lg_k 3..22, sd, side, unioned); hll sketches of the three register '
         'widths fed streams across LIST/SET/HLL boundaries, union results, HllArray with overwritten estimator registers; '
-        'compute_icon_estimate on (lg_k 3..27, coupon counts around k/2, k, 27k/8, 5.6k, 5.7k, 20k); cpc sketches and union results, '
+        'out-of-order HllArrays with overwritten kxq registers (raw estimates below, inside and beyond the composite interpolation '
+        'table for each lg_k, a continuity pair at the table end); the defining bracket of the exact binomial tails checked in exact '
+        'rational arithmetic for small sample counts; compute_icon_estimate on (lg_k 3..27, coupon counts around k/2, k, 27k/8, 5.6k, 5.7k, 20k); cpc sketches and union results, '
         'cpc sketch with overwritten estimator registers; bounds_binomial_proportions. '
         'BIT-EXACT comparison with the extracted binary64 model wherever only + - * / sqrt, comparisons, ceil and table lookups are '
-        'used (clamps of every type, cont_classic bounds, rel-err, cpc eps, ICON polynomial, coupon cubic interpolation, erf/normal_cdf); '
+        'used (clamps of every type, the whole of binomial_bounds except its two log branches — cont_classic bounds, table branches and the exact-tail loops given pow(theta,n) —, HllArray::getCompositeEstimate given the bitmap estimate, rel-err, cpc eps, ICON polynomial, coupon cubic interpolation, erf/normal_cdf); '
         'non-trivial = the case reaches an estimation-mode / table / clamp branch')
 TRUSTED = ['tables and constants are regenerated from the headers by translators/gen_boundtables.py (python float() = correctly rounded '
            'decimal->binary64 conversion, as the C++ compiler does); the side-condition theorems are re-checked on them in every run',
-           'inner approximations that go through log/pow/exp (binomial tails for 1 sample / exact tail sums, HLL composite estimator, '
-           'ICON exponential branch) are read from the implementation and passed to the model as inputs; the ordering theorems hold for '
+           'values that go through log/pow/exp (binomial bounds for 1 sample / 0 samples, pow(theta,n) of the exact tail sums, the HLL bitmap '
+           'estimate, ICON exponential branch) are read from the implementation and passed to the model as inputs; the ordering theorems hold for '
            'ANY value in their place',
            'extraction of primitive floats/ints: ExtrOCamlFloats, ExtrOCamlInt63 (coq-core kernel Float64/Uint63), coq/FloatBits.v; '
            'C library fmax/ceil/sqrt modelled by their IEEE-754 definitions (fmax as in glibc for quiet NaNs)',
@@ -67,6 +75,20 @@ def nxt(x, k=1):
     return b2d(b + k)
 
 MAXT = 2**63 - 1
+
+_TABLES = {}
+def tables():
+    """x arrays of CompositeInterpolationXTable and delta_of_num_std_devs, parsed from the checked tree by the translator's parser"""
+    if not _TABLES:
+        import gen_boundtables as gbt, vlib
+        def src(rel):
+            return gbt.drop_ifdef(gbt.strip_comments(open(os.path.join(vlib.REPO, rel)).read()), 'LARGER_K_VALUES')
+        try:
+            _TABLES['x'] = [[float(e) for e in row] for row in gbt.find_array2d(src('hll/include/CompositeInterpolationXTable-internal.hpp'), 'xArray', 'double')]
+            _TABLES['delta'] = [float(e) for e in gbt.find_array(src('common/include/binomial_bounds.hpp'), 'delta_of_num_std_devs', 'double')]
+        except Exception:
+            _TABLES['x'] = []; _TABLES['delta'] = []
+    return _TABLES
 SQ = 1 - 1e-5
 
 def theta_points(rng, n, count):
@@ -208,6 +230,36 @@ def gen_hll(rng, tier):
         cases.append(dict(id='hll%d' % cid, ops=ops, tags=['hll', 'lgk%d' % lgk])); cid += 1
     return cases
 
+def hll_cf(lgk):
+    k = float(1 << lgk)
+    return {4: 0.673, 5: 0.697, 6: 0.709}.get(lgk, 0.7213 / (1.0 + (1.079 / k)))
+
+def gen_composite(rng, tier):
+    """out-of-order HllArray with overwritten kxq registers: raw estimates below, inside and beyond the interpolation table"""
+    xs = tables()['x']
+    cases = []
+    lgks = [4, 5, 6, 7, 8, 9, 10, 11, 12, 13] if tier == 'quick' else list(range(4, 20))
+    for lgk in lgks:
+        if lgk - 4 >= len(xs) or len(xs[lgk - 4]) < 8:
+            continue
+        x = xs[lgk - 4]; k = 1 << lgk; cf = hll_cf(lgk)
+        targets = [x[0] * 0.999, x[0] * (1 - 1e-12), x[0], x[0] * (1 + 1e-12), x[0] * 1.001, x[1], (x[1] + x[2]) / 2, x[2] * 1.0001,
+                   x[len(x) // 2] * 1.0001, x[-3] * 1.00001, x[-2], x[-2] * 1.00001, x[-1] * (1 - 1e-12), x[-1],
+                   x[-1] * 1.5, x[-1] * 100.0, 2.5 * k, 2.9 * k, 3.0 * k, 3.1 * k, 3.5 * k, 0.8 * k, 1.0 * k, 1.2 * k, 1.5 * k, 2.0 * k]
+        targets += [x[0] * math.exp(rng.uniform(-0.2, math.log(4 * x[-1] / x[0]))) for _ in range(8 if tier == 'quick' else 40)]
+        ops = []
+        def poke(t, tag=0):
+            kxq = cf * k * k / t
+            kxq1 = rng.choice([0.0, 0.0, 2.0 ** -40, kxq * 2.0 ** -30])
+            num_at = max(0, min(k, int(round(k * math.exp(-t / k)))))
+            ops.append([6, 3, lgk, 2, 0, num_at, d2b(kxq - kxq1), d2b(kxq1), tag])
+        for t in targets:
+            poke(t)
+        # continuity at the end of the table: raw just below and just above xArr[last]
+        poke(x[-1] * (1 - 1e-9), 1); poke(x[-1] * (1 + 1e-9), 2)
+        cases.append(dict(id='composite%d' % lgk, ops=ops, tags=['hll-composite', 'lgk%d' % lgk]))
+    return cases
+
 def gen_icon(rng, tier):
     cases = []
     for lgk in range(3, 28):
@@ -261,7 +313,7 @@ def gen_bbp(rng, tier):
     return [dict(id='bbp', ops=ops, tags=['binomial-proportions'])]
 
 def gen(rng, tier):
-    return (gen_bb(rng, tier) + gen_sketch_state(rng, tier) + gen_sketch_real(rng, tier) + gen_hll(rng, tier) +
+    return (gen_composite(rng, tier) + gen_bb(rng, tier) + gen_sketch_state(rng, tier) + gen_sketch_real(rng, tier) + gen_hll(rng, tier) +
             gen_icon(rng, tier) + gen_cpc(rng, tier) + gen_bbp(rng, tier))
 
 # --------------------------------------------------------------------------------------------------------------
@@ -285,9 +337,38 @@ def triple_checks(prefix, est, b, i, fails, exact_to=None):
         if not all(x == exact_to for x in b) or est != exact_to:
             fails.append(dict(sig=prefix + '_exact', what='not exact outside estimation mode: est %r bounds %r expected %r' % (est, b, exact_to), op_index=i))
 
+def tail_le(m, n, p):
+    """P(Binomial(m, p) <= n), exact"""
+    q = 1 - p; tot = Fraction(0); c = 1
+    for j in range(0, min(n, m) + 1):
+        tot += c * p ** j * q ** (m - j)
+        c = c * (m - j) // (j + 1)
+    return tot
+
+def exact_tail_checks(n, theta, sd, ilb, iub, blb, bub, i, fails):
+    """defining property of the exact binomial tails (branch 7), in exact rational arithmetic:
+       upper: smallest m with P(Bin(m, theta) <= n) <= delta;  lower: largest r with P(Bin(r, theta) >= n) <= delta (or n - 1)"""
+    dl = tables()['delta']
+    if len(dl) != 4:
+        return
+    p = Fraction(theta); delta = Fraction(dl[sd]); lo = delta * (1 - Fraction(1, 10**9)); hi = delta * (1 + Fraction(1, 10**9))
+    if bub == 7 and iub == int(iub) and 0 < iub <= 400:
+        m = int(iub)
+        if not (tail_le(m, n, p) <= hi and tail_le(m - 1, n, p) > lo):
+            fails.append(dict(sig='bb_exact_tail_ub', what='exact-tail upper bound %d for %d samples, theta %r, %d std devs: P(Bin(m,theta)<=n) = %.6g at m, %.6g at m-1, '
+                              'does not bracket delta %.6g' % (m, n, theta, sd, float(tail_le(m, n, p)), float(tail_le(m - 1, n, p)), dl[sd]), op_index=i))
+    if blb == 7 and ilb == int(ilb) and 0 < ilb <= 400:
+        r = int(ilb)
+        ge = lambda mm: 1 - tail_le(mm, n - 1, p)
+        if not (ge(r + 1) > lo and (r < n or ge(r) <= hi)):
+            fails.append(dict(sig='bb_exact_tail_lb', what='exact-tail lower bound %d for %d samples, theta %r, %d std devs: P(Bin(r,theta)>=n) = %.6g at r, %.6g at r+1, '
+                              'does not bracket delta %.6g' % (r, n, theta, sd, float(ge(r)), float(ge(r + 1)), dl[sd]), op_index=i))
+
 def oracle(case, irecs, mrecs):
     fails = []
     relerr = {}
+    tail_budget = 12
+    prev_comp = None
     for i, op in enumerate(case['ops']):
         if i >= len(irecs):
             break
@@ -303,6 +384,11 @@ def oracle(case, irecs, mrecs):
             triple_checks('bb', est, b, i, fails, exact_to=(float(n) if theta == 1.0 else None))
             if any(x < min(est, float(n)) for x in b[0::2]):
                 fails.append(dict(sig='bb_lb_below_retained', what='lower bound %r below the number of samples %d (estimate %r)' % (b[0::2], n, est), op_index=i))
+            S = mrecs[i].get('S', []) if i < len(mrecs) else []
+            if 2 <= n <= 16 and len(S) == 6 and len(E) >= 6 and 7 in S and tail_budget > 0:
+                tail_budget -= 1
+                for sd in (1, 2, 3):
+                    exact_tail_checks(n, theta, sd, b2d(E[2 * sd - 2]), b2d(E[2 * sd - 1]), S[2 * sd - 2], S[2 * sd - 1], i, fails)
             if n == 0 and (est != 0 or b[0] != 0 or b[2] != 0 or b[4] != 0):
                 fails.append(dict(sig='bb_zero_samples', what='zero samples: est %r lbs %r' % (est, b[0::2]), op_index=i))
         elif code in (3, 4) and len(R) == 10:
@@ -337,7 +423,14 @@ def oracle(case, irecs, mrecs):
             if upper == 1 and not (-1 < v < 0):
                 fails.append(dict(sig='relerr_sign', what='upper-side relative error %r not in (-1,0) (lg_k %d sd %d)' % (v, lgk, sd), op_index=i))
             relerr.setdefault((upper, ooo, lgk), {})[sd] = (abs(v), i)
-        elif code == 6 and len(R) == 8 and len(E) == 8:
+        elif code == 6 and op[1] == 3 and len(R) == 8 and len(E) == 12:
+            # overwritten kxq registers (not a reachable state): only the continuity of the composite estimator at the table end
+            comp = b2d(E[11]); tag = op[8] if len(op) > 8 else 0
+            if tag == 2 and prev_comp is not None and not (abs(comp - prev_comp) <= 1e-6 * abs(prev_comp)):
+                fails.append(dict(sig='hll_composite_jump_at_table_end', what='lg_k %d: composite estimate %r just below the end of the interpolation '
+                                  'table and %r just above it' % (op[2], prev_comp, comp), op_index=i))
+            prev_comp = comp if tag == 1 else None
+        elif code == 6 and len(R) == 8 and len(E) == 12:
             mode, lgk, ooo, count, cur_min, num_at = E[0:6]
             b = [b2d(x) for x in R[0:6]]; est = b2d(R[6])
             triple_checks('hll', est, b, i, fails)
@@ -404,8 +497,9 @@ MANIFEST = dict(
                 '(binomial_bounds, RelativeErrorTables, cpc_confidence, icon_estimator, coupon interpolation): lengths, every index formula stays '
                 'inside its table, lower-side factors > 0, upper-side factors in (-1,0), monotone in the std devs per row, getRelErr and the cpc eps '
                 'as modelled bit-exactly for every lg_k, and a digest pinning every table entry. '
-                'COMPARED by the correspondence run (bit for bit, every run): all clamp expressions of the four sketch types, cont_classic_lb/ub and the '
-                'branch selection of binomial_bounds, hll get_rel_err, cpc eps/ceil, the ICON polynomial, the coupon cubic interpolation, erf/normal_cdf. '
+                'COMPARED by the correspondence run (bit for bit, every run): all clamp expressions of the four sketch types, binomial_bounds completely '
+                '(branch selection, cont_classic_lb/ub, equivalence-table branches, special_n_star / special_n_prime_b/f loops given pow(theta,n)) except its '
+                'two log branches, HllArray getHllRawEstimate/getCompositeEstimate on the translated CompositeInterpolationXTable (bitmap estimate from the code), hll get_rel_err, cpc eps/ceil, the ICON polynomial, the coupon cubic interpolation, erf/normal_cdf. '
                 'ENUMERATED on the implementation outputs (labelled enumeration, not proof): lb <= est <= ub, widening with the std devs, exactness in '
                 'exact mode, est/lb >= retained or coupon count, over the dense grid described in the evidence rule.'),
     level_note=('NOT claimed: negligible bias, spread <= published RSE, interval coverage; monotone widening across the approximation branches as a '
